@@ -33,7 +33,7 @@ CHECKS = {
  "C08": ("E3 shellsim + cooperative receiver model + generated fault schedules + E6 recovery phase on the real loop", "fault_enumeration",
          "fault-injection property testing: generated per-link fault schedules on a simulated clock against the real shell; teardown-cause, retry-spacing, bounded-recovery and clean-rejoin monitors",
          "Over generated schedules of black-holes, one-way loss, lost handshake replies, receiver amnesia (REG_NGP / REG_ERR) and socket send errors on 2..4 links, every timeout setting and both modes: an established link is torn down only after silence >= its timeout, an injected send failure or a REG_ERR; reconnect attempts happen only in housekeeping, >= 1 s apart before the first REG3 and >= 5 s after, and keep coming while the link is down; once faults are over and the receiver holds the adopted id the link is connected within 30 s; a rejoining link has window 20000, zero in-flight, empty queue, warming phase; survivors never drop a datagram while usable; a receiver-side monitor (members expire after 10 s of silence, as in srtla_rec) flags a link the sender still calls connected long after the receiver forgot it (failure never detected). Strategies include long outages beyond the receiver expiry, flapping links and runs with the stall guard off; silence at teardown is measured against the configured timeout once a routing decision was taken under it. E6 (1 scenario quick, 3 thorough): the timeout is raised at run time, one link of the real sender is black-holed while the stream goes on - nothing the client sent is lost beyond one batch, the first re-registration comes no earlier than the configured timeout, retries >= 5 s apart, healthy links never re-register, a REG3 to the replaced socket does not revive the link, registered again <= 33 s after the path returns, no file descriptors left behind by the retries.",
-         "Liveness clauses are bounded safety over a 70 s (quick) / 400 s (thorough) simulated horizon. Receiver model written from the protocol docs. Link 0 is always fault-free; an all-links-down run ends where production exits (10 s).",
+         "Liveness clauses are bounded safety over a 70 s (quick) / 400 s (thorough) simulated horizon. Receiver model written from the protocol docs. Link 0 is fault-free except in total-outage runs (all links black-holed together; the all-links-failed error of handle_housekeeping is logged by the real loop, which goes on - so does the simulation). A receiver that lost the group and answers REG_NGP must be given a new group within timeout + 30 s; while it refuses with REG_ERR no recovery is demanded.",
          "5/C08"),
  "C09": ("E3 shellsim (real handle_uplink_packet + real drain_packet_queue backlog tier) + reference classification + E6 real reader tasks (1 scenario quick, 6 thorough) + libFuzzer c09_uplink (thorough)", "exploration",
          "property-based testing with structure-aware generated datagrams on generated link states; oracle = reference classification by type, relay byte-equality, liveness and delivery-proof model",
